@@ -84,6 +84,11 @@ META = {
   "text": "Pre-states cover every relation between the two caches named by the property; each transfer is cut after every message in turn and the follower restarted, and whatever the follower then claims to hold under the leader's id is read back completely and compared with the leader's history. Exploration + enumeration of the interruption point.",
   "note": "The harness decides that a session has quiesced by watching the follower's right edge / message counter (bounded waits); it does not own goroutine scheduling inside the pair.",
  },
+ "C14": {
+  "technique": "stateful property-based testing (rapid) over replay histories with injected crashes and stops (request-count fault points, start-up included) against request-logging doubles; oracle = invariants over the target's execution history (committed-prefix resume point, monotone restarts, atomic unit + record, frontier never beyond a gap)",
+  "text": "Runs are generated as a list (restart kind, fault, traffic produced so far), so that restart-after-restart without traffic, crashes during start-up recovery and between frontier save and journal deletion are ordinary members of the domain. Cluster targets with unequal node latencies give out-of-order completion across lanes. Exploration level: schedules inside the tool are not owned, fault points are request counts.",
+  "note": "The frontier is flushed on a 100 ms wall-clock interval that cannot be changed from outside; cases with source pauses > 100 ms and linger times exercise it (class frontier-saved).",
+ },
  "C18": {
   "technique": "property-based testing (rapid) over source streams with adversarial hash-tag arrangements against a slot-checking cluster double; oracle = reference slot function and reference key table over every transaction received and over the source units (refuse / replay-exactly verdict)",
   "text": "The slot function and the key positions the verdicts use are the harness' own (bitwise CRC16, table transcribed from the command reference), so a disagreement between the tool's routing and Redis Cluster shows as a transaction spanning slots, a refused single-slot unit or an unrefused multi-slot one. Requests are judged as received (queued or executed), so a partially sent unit is seen even when the node rejects it.",
